@@ -6,9 +6,10 @@ A requirement is a list of *groups* (bit masks).  Meaning of a group `R` for a c
 "if every capability in `R` has been disabled, `c` must not be performed".
 Single-capability calls have one single-bit group.  Mode-dependent calls (`fopen`, `open`: read or write
 depending on the mode argument) and calls shared by two features (`getaddrinfo`: connect or listen;
-`dlopen`/`dlsym`: native modules or FFI) have one multi-bit group: statically some capability of the group must
-have been asserted on every path; that it is the *right* one for the arguments is checked by the dynamic sweep
-(harness/C18), which uses the per-binding table there.  `open`/`open64` are stricter: see `needOpen`.
+`dlopen`/`dlsym`: native modules or FFI) have one multi-bit group in `sensitive` (which features the call belongs to);
+what is *required* at a call site is refined by `need` below: `needOpen` / `needFileFlags` (by the tracked mode),
+`siteRole` / `byRole` (by the enclosing C function), `needAddrinfo` (by the constant `passive` argument).
+The dynamic sweep (harness/C18) checks the same per observed call with its own per-binding table.
 
 tools/gen/sandbox.py reads the *names* in `sensitive`, `benign` and `spawners` from this file (single source).
 -/
@@ -185,13 +186,50 @@ def needFileFlags (md : Nat) : List Mask :=
   (if md &&& (1 ||| 4 ||| 8) != 0 then [capFsWrite] else []) ++
   (if md &&& 2 != 0 || (md &&& 4 != 0 && md &&& 8 != 0) then [capFsRead] else [])
 
+/-! Calls shared by two features (`dlopen`/`dlsym`: native modules or FFI; `getaddrinfo`/`bind`: connecting or listening):
+    the capability follows from what the enclosing C function does with it.  `siteRole` is the reviewed table of call sites;
+    a call site that is NOT listed must have asserted every capability of `byRole` (so a new site is reported until it is
+    reviewed and given its role here). -/
+def byRole : List (String × List Mask) := [
+  ("dlopen", [capModules, capFfiDefine]), ("dlmopen", [capModules, capFfiDefine]),
+  ("dlsym", [capModules, capFfiDefine]), ("dlvsym", [capModules, capFfiDefine]),
+  ("getaddrinfo", [capNetConnect, capNetListen]), ("gethostbyname", [capNetConnect, capNetListen]),
+  ("bind", [capNetConnect, capNetListen])]
+
+def siteRole : List ((String × String) × Mask) := [
+  (("janet_native", "dlopen"), capModules),              -- corelib.c: `native`, loading a native module
+  (("janet_native", "dlsym"), capModules),
+  (("janet_core_raw_native", "dlopen"), capFfiDefine),   -- ffi.c: `ffi/native`
+  (("janet_core_native_lookup", "dlsym"), capFfiDefine), -- ffi.c: `ffi/lookup`
+  (("cfun_net_connect", "getaddrinfo"), capNetConnect),  -- net/connect: resolving :bindhost for the outgoing connection
+  (("cfun_net_connect", "bind"), capNetConnect),         -- net/connect: binding the local end
+  (("cfun_net_listen", "bind"), capNetListen)]           -- net/listen
+
+def lookupSite (k : String × String) : List ((String × String) × Mask) → Option Mask
+  | [] => none
+  | (k', v) :: t => if k' == k then some v else lookupSite k t
+
+/-! net.c `janet_get_addrinfo(argv, offset, socktype, passive, is_unix)` is shared by net/address, net/connect (passive = 0)
+    and net/listen (passive = 1: `AI_PASSIVE`, an address to bind and listen on).  `paramModes` names the parameter (index)
+    whose *constant* argument value becomes the callee's tracked variable (`Op.call g m0`; the translator checks that the
+    callee never assigns it and passes 2 when the argument is not a constant). -/
+def paramModes : List (String × Nat) := [("janet_get_addrinfo", 3)]
+
+def needAddrinfo (md : Nat) : List Mask :=
+  if md == 0 then [capNetConnect] else if md == 1 then [capNetListen] else [capNetConnect, capNetListen]
+
 /-- requirement of call `name` made from C function `fn` while the tracked flags variable of the activation is `md`
     (`[]` = nothing required) -/
 def need (fn name : String) (md : Nat) : List Mask :=
   if exempt.contains (fn, name) then []
   else if openLike.contains name then needOpen md
   else if name == "janet-file-flags" then needFileFlags md
-  else (lookup name sensitive).getD []
+  else if fn == "janet_get_addrinfo" && name == "getaddrinfo" then needAddrinfo md
+  else match lookupSite (fn, name) siteRole with
+    | some r => [r]
+    | none => match lookup name byRole with
+      | some rs => rs
+      | none => (lookup name sensitive).getD []
 
 /-- every external symbol of the program is classified (sensitive or reviewed-benign) -/
 def classified (name : String) : Bool :=
